@@ -15,6 +15,12 @@ JOBS = [
     ("includes", "Includes", "Includes.cfg", dict(workers=8, xss="512m", cache_key="inc", keep_tags={"CASE"}, xmx="16g")),
     ("includes", "Includes", "Includes2.cfg", dict(workers=8, xss="512m", cache_key="inc", keep_tags={"CASE"}, xmx="16g")),
     ("typerules", "TypeRules", "TypeRules.cfg", dict(workers=1, xss="512m", cache_key="tr", keep_tags={"DECL", "SIG", "LISTING", "ROW", "ARITH"})),
+    ("events", "MCEvents", "MCEvents.cfg", dict(workers=8, cache_key="v1", keep_tags=["CASE"], xmx="16g")),
+    ("lexer", "MCLexer", "MCLexer_A.cfg", dict(workers=8, cache_key="v1", keep_tags=["CASE"], xmx="16g")),
+    ("lexer", "MCLexer", "MCLexer_B.cfg", dict(workers=8, cache_key="v1", keep_tags=["CASE"], xmx="16g")),
+    ("lexer", "MCLexer", "MCLexer_C.cfg", dict(workers=8, cache_key="v1", keep_tags=["CASE"], xmx="16g")),
+    ("lexer", "MCLexer", "MCLexer_D.cfg", dict(workers=8, cache_key="v1", keep_tags=["CASE"], xmx="16g")),
+    ("lexer", "MCLexer", "MCLexer_E.cfg", dict(workers=8, cache_key="v1", keep_tags=["CASE"], xmx="16g")),
     ("literals", "LiteralsGen", "LiteralsGen.cfg", dict(workers=1, xss="1g", cache_key="lit", keep_tags={"CASE", "COUNT"})),
 ]
 for d, m, c, kw in JOBS:
